@@ -76,6 +76,7 @@ AllPreds == SUBSET Key
 (* retain predicates: keep none, keep all, keep odd keys, keep upper half, keep lower half *)
 SomePreds == {{}, Key, {k \in Key : k % 2 = 1}, {k \in Key : 2 * k > Cardinality(Key)},
               {k \in Key : 2 * k <= Cardinality(Key)}}
+             \cup {Key \ {k} : k \in Key}     \* drop one element only: no rehash afterwards
 
 ----------------------------------------------------------------------------
 (* slots and tables *)
